@@ -39,7 +39,7 @@ SPEC = {
             "-inf, -0.0, max(), lowest(), denorm_min()), on half of the cases reset_filtration(v, min_dim) first with min_dim in {-1..dim+1, INT_MAX} "
             "(= v on dimension >= min_dim, cache dropped), then make_filtration_non_decreasing = pointwise max over faces, return value, idempotence, "
             "then prune_above_filtration (thresholds incl. -inf, -0.0, +inf, INT_MIN/INT_MAX for int) = sublevel set + return value, full read-interface "
-            "sweep; (ext_*, 6 option sets) extend_filtration vs the cone filtration of the vertex function incl. documented rescaling, decode of value and "
+            "sweep; (ext_*, 6 option sets) extend_filtration vs the cone filtration of the vertex function (order of the parts, ascending / descending order inside them, monotone), decode of value and (the documented numeric rescaling is counted, not judged) "
             "part, dimension() == dim+1; labels are NOT compressed for the non-contiguous option sets: C01's universes plus {INT_MIN, INT_MAX-1, ..}, an "
             "all-negative one whose largest label is -2 = null_vertex()-1 (the cone point must not be the dummy vertex: this class is probed in a forked "
             "child so that a crash is reported as ext.crash with the class in the signature), 16-bit analogues; junk (non-monotone, infinite) values on the "
